@@ -209,6 +209,17 @@ func (p *pathNode) addPathNodeFor(name string, pn *pathNode) {
 // returned by this function. Any operations on the removed tree must use this
 // value.
 func (p *pathNode) removeWithName(name string, fn func(ref *fidRef)) *pathNode {
+	// References taken below are dropped only after childMu is released
+	// (deferred functions run last-in first-out): if one of them turns out
+	// to be the last reference, DecRef calls removeChild on the pathNode of
+	// the child's parent, which may be p itself.
+	var held []*fidRef
+	defer func() {
+		for _, ref := range held {
+			ref.DecRef()
+		}
+	}()
+
 	p.childMu.Lock()
 	defer p.childMu.Unlock()
 
@@ -225,8 +236,8 @@ func (p *pathNode) removeWithName(name string, fn func(ref *fidRef)) *pathNode {
 			// can lead to data races. If the child has already
 			// been destroyed, then we can skip the callback.
 			if ref.TryIncRef() {
+				held = append(held, ref)
 				fn(ref)
-				ref.DecRef()
 			}
 		}
 	}
